@@ -120,6 +120,22 @@ def _root(n):
     return n
 
 
+MAX_CONST = 10**10
+
+
+def has_huge_constant(root):
+    """Constants beyond 10^10 are outside the rule checks' domain: util.factor() does trial
+    division up to sqrt(value), so can_apply_to takes minutes on 10^18 (slow, not wrong)."""
+    for n in A.preorder(root):
+        if A.kind(n) == "ConstantExpression":
+            try:
+                if abs(float(n.value)) > MAX_CONST:
+                    return True
+            except (TypeError, ValueError, OverflowError):
+                return True
+    return False
+
+
 def build_tree(ctx, case):
     """G-tree: parse(text) then the case's pre-rewrites. Returns root or None (rejected / excluded)."""
     root = parse(case["text"])
@@ -128,6 +144,9 @@ def build_tree(ctx, case):
         return None
     if X.has_nonfinite(root):
         ctx.count("excluded_nonfinite")
+        return None
+    if has_huge_constant(root):
+        ctx.count("excluded_huge_constant")
         return None
     rs = rules()
     for ri, ni in case.get("pre", []):
@@ -149,6 +168,9 @@ def build_tree(ctx, case):
             break
         if X.has_nonfinite(ap.result_root):
             ctx.count("excluded_nonfinite")
+            break
+        if has_huge_constant(ap.result_root):
+            ctx.count("excluded_huge_constant")
             break
         root = ap.result_root
         ctx.count("pre:applied")
